@@ -38,6 +38,13 @@ def to_string(case, patterns=None, dc=None):
         if patterns is None:
             return dc.to_string()
         with DescriptorFormat(patterns[0], patterns[1]):
+            # an inner block that has been left, and a rejected pair, leave the chosen patterns in force
+            with DescriptorFormat("{mother} ~> {daughters}", "<<{mother} ~> {daughters}>>"):
+                pass
+            try:
+                DescriptorFormat.set_config("{mother} !! {daughters}", "({mother} !! {daughter})")
+            except ValueError:
+                pass
             return dc.to_string()
 
 
